@@ -16,7 +16,11 @@ func (k Keeper) CompleteBatch(ctx sdk.Context, requestContext types.RequestConte
 	requestContext.BatchState = types.BATCHCOMPLETED
 
 	if len(requestContext.ModuleName) != 0 {
+		// store the completed batch before the owning module is called and carry on with
+		// the context as the callback left it (the module may pause, kill or update it)
+		k.SetRequestContext(ctx, requestContextID, requestContext)
 		k.Callback(ctx, requestContextID)
+		requestContext, _ = k.GetRequestContext(ctx, requestContextID)
 	}
 
 	batchState := types.BatchState{
